@@ -1,5 +1,6 @@
 //! Per-property checks.
 
+pub mod batchfail;
 pub mod bigbatch;
 pub mod bigrecovery;
 pub mod c06;
@@ -234,6 +235,8 @@ pub fn run_check(prop: &str, tier: &str) -> i32 {
             progs.extend(c08::ack_programs().into_iter().filter(|p| p.threads.iter().all(|t| matches!(t.last(), Some(crate::sut::Op::Flush)))));
             progs.reverse();
             schedprops::run_programs(progs, 1, 4000, budget * 0.15, &schedprops::judge_linearizable, None, &["C05"], &mut report);
+            // (4) batches that fail half-way (no room for the last record / record writes fail), the retry, the refill
+            batchfail::run(&["C05"], thorough, &mut report);
         }
         "C07" => {
             let bound = if thorough { 3 } else { 2 };
@@ -254,7 +257,7 @@ pub fn run_check(prop: &str, tier: &str) -> i32 {
             // sequential histories of TTL-only rewrites on a full device: without concurrency StaleExtent is never admissible
             let mut seqs = suites::full_ttl_suites(thorough);
             // legacy-format records at the block boundaries, values read back from the device (cache off)
-            for mut s in suites::partition_suites(thorough).into_iter().filter(|s| s.name == "part-edge-v1" || s.name == "part-edge-v2") {
+            for mut s in suites::partition_suites(thorough).into_iter().filter(|s| s.name == "part-edge-v1" || s.name == "part-edge-v2" || s.name == "part-three4-v3") {
                 s.cfg.cache = false;
                 s.log_io = false;
                 s.readback = true;
@@ -262,6 +265,8 @@ pub fn run_check(prop: &str, tier: &str) -> i32 {
                 seqs.push(s);
             }
             seq_check(prop, tier, seqs, &["C08", "C01"], budget * 0.2, &mut report);
+            // batches that fail half-way, the retry, the refill: every key must read back its own bytes
+            batchfail::run(&["C08"], thorough, &mut report);
             // labelled sampling supplement: racing overwrites, then scan vs point read at quiescence
             if report.violations.is_empty() {
                 c14::stress_supplement(&mut report, if thorough { 10.0 } else { 2.5 });
@@ -300,6 +305,8 @@ pub fn run_check(prop: &str, tier: &str) -> i32 {
             if report.violations.is_empty() {
                 c19::failed_backlog_for_c09(&mut report);
             }
+            // batches of 2..4 records whose writes fail three times, the retry, the refill
+            batchfail::run(&["C09"], thorough, &mut report);
         }
         "C19" => {
             c19::check(tier, budget * 0.5, &mut report);
